@@ -192,6 +192,9 @@ VAR_DEFS = [
     ("DISPLACEMENT", "DISPLACEMENT", "nodal", ["dx", "dy", "dz"], "NODE"),
     ("DISPLACEMENT", "DISPLACEMENT", "nodal", ["dx", "dy"], "NODE"),          # plane result under the standard name
     ("STRESS_CAUCHY", "STRESS_CAUCHY", "elnodal", ["S11", "S22", "S33", "S12"], "ELEMENT_NODAL"),
+    # a standard name stored at another location than the registered one, said explicitly
+    ("DISPLACEMENT", "E", "elnodal", ["ux", "uy", "uz"], "ELEMENT_NODAL"),
+    ("STRESS_CAUCHY", "DISPLACEMENT", "nodal", ["sx", "sy", "sz"], "NODE"),
 ]
 SRC_COLUMNS = {"DISPLACEMENT": ["dx", "dy", "dz"], "TEMP": ["T"],
                "STRESS_CAUCHY": ["S11", "S22", "S33", "S12", "S13", "S23"],
@@ -615,6 +618,8 @@ def verify(path, model, out, log, step, absent=None, deep=True):
             for (s, g, v) in sorted(model.vars):
                 if not _verify_variable(imp, s, g, v, model, out, log, step):
                     return False
+            if not _verify_state_chain(imp, model, out, log, step):
+                return False
     finally:
         _close(imp)
         try:
@@ -726,6 +731,59 @@ def _verify_geometry(imp, raw, g, mesh, model, out, log, step):
                         out.violate("V4-filter-exact", "filter-then-join", {"step": step, "geometry": g, "set": nm, "variable": list(vs[0])})
                         return False
                     out.count("probe:filter_then_join")
+    return True
+
+
+def _verify_state_chain(imp, model, out, log, step):
+    """A read chain across two states of one geometry: make_mesh(g, A).join_variable(X, B).join_variable(Y)
+    - the documented rule is that a join without a state uses the state defined last (B)."""
+    by_geom = {}
+    for (s, g, v) in sorted(model.vars):
+        by_geom.setdefault(g, {}).setdefault(s, []).append(v)
+    for g, per_state in sorted(by_geom.items()):
+        states = sorted(per_state)
+        if len(states) < 2:
+            continue
+        for a in states:
+            for b in states:
+                if a == b:
+                    continue
+                x = per_state[b][0]
+                y = per_state[b][-1]
+                sx, sy = model.vars[(b, g, x)], model.vars[(b, g, y)]
+                if x != y and set(sx["columns"]) & set(sy["columns"]):
+                    continue
+                try:
+                    m = imp.make_mesh(g, a).join_variable(x, b, column_names=sx["columns"])
+                    if y != x:
+                        m = m.join_variable(y, column_names=sy["columns"])
+                    else:
+                        m = imp.make_mesh(g, a).join_variable(x, b, column_names=sx["columns"])
+                        m = imp.make_mesh(g, a).join_variable(per_state[a][0], column_names=model.vars[(a, g, per_state[a][0])]["columns"]) \
+                            if False else m
+                    df = m.to_frame()
+                except Exception as e:   # noqa
+                    out.violate("V4-repeatable-read", "state-chain", {"step": step, "geometry": g, "mesh_state": a, "join_state": b, "variables": [x, y],
+                                                                     "type": type(e).__name__, "msg": str(e)[:200]})
+                    return False
+                want_idx = ref.expected_index(model.geoms[g])
+                if _frame_rows(df) != want_idx:
+                    out.violate("V4-repeatable-read", "state-chain:rows", {"step": step, "geometry": g, "mesh_state": a, "join_state": b})
+                    return False
+                for var, spec in ((x, sx), (y, sy)):
+                    want = model.expected_variable(b, g, var)
+                    got = df[spec["columns"]].to_numpy()
+                    for r, key in enumerate(want_idx):
+                        w = want[key]
+                        w = w[:len(spec["columns"])] if w is not None else None
+                        if w is None or [float(q) for q in got[r]] != [float(q) for q in w]:
+                            out.violate("V4-repeatable-read", "state-chain:values",
+                                        {"step": step, "geometry": g, "mesh_state": a, "join_state": b, "variable": var, "row": list(key),
+                                         "file": [float(q) for q in got[r]], "model": w})
+                            return False
+                out.count("probe:read_chain_across_states")
+                if (a, g, y) in model.vars and model.expected_variable(a, g, y) != model.expected_variable(b, g, y):
+                    out.count("probe:read_chain_states_differ")
     return True
 
 
